@@ -96,7 +96,68 @@ def _single_entry(fn, tg, frm):
     return all(p == frm for p in fn.pred_map()[tg])
 
 
+def _upper_bound_from_guards(fn, defs, idom, block, op):
+    """Smallest K such that a dominating branch guarantees operand <= K (unsigned), else None.  The operand is
+    followed through value-preserving widening casts (`c as u32` of a u8)."""
+    for _ in range(4):
+        if op.get("c") in ("copy", "move") and not op["pl"]["p"]:
+            ds = defs.get(op["pl"]["l"], [])
+            if len(ds) == 1 and ds[0][1] != "term" and ds[0][2]["k"] == "cast" and ds[0][2]["ck"].startswith("IntToInt") \
+                    and WIDTH.get(ds[0][2]["from"], 999) <= WIDTH.get(ds[0][2]["to"], 0) and not ds[0][2]["from"].startswith("i"):
+                op = ds[0][2]["op"]
+                continue
+        break
+    key = panics._trace_copy(fn, defs, op, block)
+    if key is None:
+        return None
+    best = None
+    for bi, b in enumerate(fn.blocks):
+        t = b["term"]
+        if b.get("cleanup") or t["k"] != "switch":
+            continue
+        sop = t["op"]
+        if sop.get("c") not in ("copy", "move") or sop["pl"]["p"]:
+            continue
+        ds = [d for d in defs.get(sop["pl"]["l"], []) if d[0] == bi and d[1] != "term"]
+        if len(ds) != 1 or ds[0][2].get("k") != "bin":
+            continue
+        d = ds[0][2]
+        a, b2, opn = d["a"], d["b"], d["op"]
+        true_t = false_t = t["otherwise"]
+        for v, tg in t["targets"]:
+            if v == 0:
+                false_t = tg
+            if v == 1:
+                true_t = tg
+        if true_t == false_t:
+            continue
+        k = edge = None
+        ka, kb = common.const_int(a), common.const_int(b2)
+        if kb is not None and panics._trace_copy(fn, defs, a, bi) == key:
+            if opn == "Lt":
+                k, edge = kb - 1, true_t
+            elif opn == "Le":
+                k, edge = kb, true_t
+            elif opn == "Ge":
+                k, edge = kb - 1, false_t
+            elif opn == "Gt":
+                k, edge = kb, false_t
+        elif ka is not None and panics._trace_copy(fn, defs, b2, bi) == key:
+            if opn == "Gt":
+                k, edge = ka - 1, true_t
+            elif opn == "Ge":
+                k, edge = ka, true_t
+            elif opn == "Le":
+                k, edge = ka - 1, false_t
+            elif opn == "Lt":
+                k, edge = ka, false_t
+        if k is not None and cfg.dominates(idom, edge, block) and _single_entry(fn, edge, bi):
+            best = k if best is None else min(best, k)
+    return best
+
+
 def discharge(fn, it, defs, idom, crate=None):
+    _CRATE[0] = crate
     t = it["term"]
     op = t.get("binop", "")
     ops = t["ops"]
@@ -117,6 +178,11 @@ def discharge(fn, it, defs, idom, crate=None):
             return "constant shift"
         if 0 <= cb < (WIDTH.get(aty or "") or 8):
             return "shift by the constant %d < bit width" % cb
+    if op in ("Shl", "Shr") and cb is None and b.get("c") in ("copy", "move"):
+        ub = _upper_bound_from_guards(fn, defs, idom, it["block"], b)
+        w = WIDTH.get(aty or "")
+        if ub is not None and w and ub < w:
+            return "shift amount <= %d < bit width on every path to the shift" % ub
     if op in ("Div", "Rem") and cb is not None and cb not in (0, -1):
         return "division by the constant %d" % cb
     if op in ("Div", "Rem") and ca is not None and aty in WIDTH and ca != -(1 << (WIDTH[aty] - 1)):
@@ -164,6 +230,9 @@ _BOUNDED_CALLS = ("<impl [T]>::len", "<impl str>::len", "Vec::<T, A>::len", "std
                   "std::iter::Iterator::position", "std::iter::Iterator::rposition", "memchr", "<impl [T]>::partition_point")
 
 
+_CRATE = [None]
+
+
 def _mem_bounded(fn, defs, op, depth):
     """A usize that counts elements / bytes of something held in memory (a length, a count, a position, a small
     constant, or sums' operands thereof): never more than isize::MAX."""
@@ -175,6 +244,9 @@ def _mem_bounded(fn, defs, op, depth):
     if op.get("c") not in ("copy", "move"):
         return False
     pl = op["pl"]
+    if pl["p"] and isinstance(pl["p"][-1], dict) and pl["p"][-1].get("n") == "index" \
+            and (pl["p"][-1].get("adt") or "").endswith("SliceRead"):
+        return True      # the slice reader's cursor: a position in its slice
     if pl["p"]:
         # the payload of Option<usize> returned by position()/rposition()
         if any(isinstance(e, dict) and e.get("n") == "Some" for e in pl["p"]):
@@ -189,7 +261,27 @@ def _mem_bounded(fn, defs, op, depth):
         return False
     (_b, si, d) = ds[0]
     if si == "term":
-        return d.get("k") == "call" and any(n.endswith(x) for n in F.callee_names(d) for x in _BOUNDED_CALLS)
+        if d.get("k") != "call":
+            return False
+        if any(n.endswith(x) for n in F.callee_names(d) for x in _BOUNDED_CALLS):
+            return True
+        p = d["callee"].get("path", "")
+        if p == "std::option::Option::<T>::unwrap_or" and len(d["args"]) == 2:
+            # `position(..).unwrap_or(len)`: both alternatives count memory
+            o = d["args"][0]
+            ods = defs.get(o["pl"]["l"], []) if o.get("c") in ("copy", "move") and not o["pl"]["p"] else []
+            return len(ods) == 1 and ods[0][1] == "term" and any(
+                n.endswith(x) for n in F.callee_names(ods[0][2]) for x in _BOUNDED_CALLS) \
+                and _mem_bounded(fn, defs, d["args"][1], depth + 1)
+        # a local function whose every return value counts memory (`fn count_newlines(b: &[u8]) -> usize { ..count() }`)
+        g = _CRATE[0].fn(d["callee"].get("resolved") or p) if _CRATE[0] is not None else None
+        if g is not None and g is not fn and g.local_ty(0) == "usize" and depth < 4:
+            gd = common.defs_of(g)
+            rets = gd.get(0, [])
+            return bool(rets) and all(
+                (r[1] == "term" and any(n.endswith(x) for n in F.callee_names(r[2]) for x in _BOUNDED_CALLS)) or
+                (r[1] != "term" and r[2]["k"] == "use" and _mem_bounded(g, gd, r[2]["op"], depth + 1)) for r in rets)
+        return False
     if d["k"] == "use":
         return _mem_bounded(fn, defs, d["op"], depth + 1)
     if d["k"] == "un" and d["op"] == "PtrMetadata":
@@ -272,6 +364,24 @@ def _sub_len_minus_position(fn, defs, a, b):
                 return None
         return None
 
+    if is_pos_plus(b) and not is_len(a):
+        # `i - (pos + 1)` where the position was found in `&s[..i]`: that slice's length is i
+        src = pos_source(b)
+        ka = panics._trace_copy(fn, defs, a, 0)
+        for _ in range(6):
+            if src is None or ka is None:
+                break
+            o = common.origin(fn, defs, src)
+            if o["k"] == "call" and o["t"]["callee"].get("trait") == "std::ops::Index" and len(o["t"]["args"]) == 2:
+                rg = common.origin(fn, defs, o["t"]["args"][1])
+                if rg["k"] == "agg" and rg["rv"].get("adt") == "std::ops::RangeTo" and rg["rv"]["fields"]:
+                    return panics._trace_copy(fn, defs, rg["rv"]["fields"][0], 0) == ka
+                return False
+            if o["k"] == "call" and o["t"]["args"]:
+                src = o["t"]["args"][0]       # iter() of ..., &mut of ...
+                continue
+            break
+        return False
     if not (is_len(a) and is_pos_plus(b)):
         return False
     ra, src = root(a), pos_source(b)
